@@ -449,8 +449,10 @@ def gen_history(rng, profile='main', maxlen=12):
     names = list(pool)
     # K10 region (a workspace symlink whose digest changes because text_or_binary changes is itself moved into the
     # cache) is excluded from the generated stream: a history either uses symlinks or text_or_binary overrides.
+    # The same holds for hard links (the link's inode is renamed onto the new cache address, so two cache paths share one
+    # inode: harmless since the repair F23, but the model has no inode aliasing between cache objects; CORPUS F23).
     use_symlink = rng.random() < 0.5
-    METHODS = ['copy', 'symlink', 'hardlink', 'reflink'] if use_symlink else ['copy', 'hardlink', 'reflink']
+    METHODS = ['copy', 'symlink', 'hardlink', 'reflink'] if use_symlink else ['copy', 'reflink']
     TOBS = [None] if use_symlink else ['auto', 'text', 'binary']
     cfg = {'algo': rng.choice([0, 0, 0, 1, 2, 3]), 'method': rng.choice(['copy', 'copy'] + METHODS[1:]),
            'tob': rng.choice(['auto', 'auto', 'auto', 'text', 'binary'])}
